@@ -39,6 +39,7 @@ def parseInfo (j : Json) : Except String (Nat × PInfo) := do
     typeIsAny := optBool j "typeIsAny" false, typeAbstract := optBool j "typeAbstract" false,
     fixed := optStr? j "fixed", nillable := optBool j "nillable" false, block, idents,
     pc := parsePC ((optStr? j "pc").getD "strict"), gref := optBool j "gref" false,
+    gname := optQN? j "gname",
     hasParent := optBool j "hasParent" true, mixed := optBool j "mixed" false })
 
 def mkInfo (n : Nat) (l : List (Nat × PInfo)) : Array PInfo :=
@@ -56,6 +57,20 @@ def inclJson : Rx.InclVerdict QN → Json
   | .unknown => Json.str "unknown"
   | .witness w => Json.mkObj [("w", Json.arr (w.map qnJson).toArray)]
 
+def parseOC (j : Json) (k : String) : Except String (Option OC) := do
+  match j.getObjVal? k with
+  | .ok (.obj o) =>
+    let v := Json.obj o
+    let mode ← match (← getStr v "mode") with
+      | "none" => pure OpenMode.none | "interleave" => pure OpenMode.interleave
+      | "suffix" => pure OpenMode.suffix | _ => throw "oc mode"
+    let any ← match v.getObjVal? "w" with
+      | .ok .null => pure none
+      | .ok w => do pure (some ((← getNat v "id"), (← parseWc w)))
+      | .error _ => pure none
+    pure (some { mode, any })
+  | _ => pure none
+
 /-- {"op":"pair","v11":b,"n":ids,"d":particle,"b":particle,"info":[…],"derivOk":[[i,j],…],
      "sig":[[ns,loc],…],"fuel":N,"words":[[…],…]}
     → {"m": port verdict, "incl": oracle verdict, "states": |certificate|, "bf": first brute-force
@@ -71,14 +86,17 @@ def handlePair (j : Json) : Except String Json := do
         let x ← p.getArr?
         if h : x.size = 2 then pure ((← x[0].getNat?), (← x[1].getNat?)) else throw "derivOk"
     | _ => pure []
-  let C : Ctx := { v11, info := mkInfo n infos, derivOk }
+  let C : Ctx := { v11, info := mkInfo n infos, derivOk, repaired := optBool j "repaired" false,
+                   repairedOC := optBool j "repairedOC" false }
+  let ocd ← parseOC j "ocd"
+  let ocb ← parseOC j "ocb"
   let sig ← (← getArr j "sig").toList.mapM parseQN
   let fuel ← getNat j "fuel"
   let words ← match j.getObjVal? "words" with
     | .ok (.arr a) => a.toList.mapM fun w => do (← w.getArr?).toList.mapM parseQN
     | _ => pure []
-  let rd := d.toRx
-  let rb := b.toRx
+  let rd := typeRx d ocd
+  let rb := typeRx b ocb
   let run := Rx.inclRun Leaf.matches sig fuel rd rb
   let incl := run.1
   let bf : Json := match words.findIdx? fun w => Rx.accepts Leaf.matches rd w && !Rx.accepts Leaf.matches rb w with
@@ -87,6 +105,8 @@ def handlePair (j : Json) : Except String Json := do
   return Json.mkObj [("m", verdictJson (contentRestriction C d b)),
     ("acc", verdictJson (typeRestrictionAccepted C d b)),
     ("admits", admitsRestriction C b d.kind), ("incl", inclJson incl),
+    ("ocacc", ocAccepted C d ocd ocb),
+    ("inclPlain", if ocd.isSome || ocb.isSome then inclJson (Rx.inclRun Leaf.matches sig fuel d.toRx b.toRx).1 else Json.null),
     ("states", run.2), ("bf", bf),
     ("ext", extendedCopies C (iterModel b)),
     ("emptiable", Json.arr #[emptiable d, emptiable b]),
@@ -282,7 +302,8 @@ def handleAttrs (j : Json) : Except String Json := do
     ("validD", Json.arr (cases.map fun A => Json.bool (validFor sem env o M A)).toArray),
     ("validB", Json.arr (cases.map fun A => Json.bool (validFor sem env o B A)).toArray),
     ("g1", noAnyExempt R D), ("g2", noProhibitedThroughWildcard env B D),
-    ("g3", wildcardDoesNotAssess env B D)]
+    ("g3", wildcardDoesNotAssess env B D),
+    ("sem", typeSemOn R sem B D (cases.flatMap fun A => A.map (·.2)).eraseDups)]
 end
 
 def handle (j : Json) : Except String Json := do
